@@ -57,6 +57,44 @@ CLAIMED.update({
         note='the linear next_good skipping loop of get_descendants is modelled by its recursive meaning and tied by correspondence only.',
         technique='Coq proofs on matcher model (incl. a regex fact on a regenerated pattern) + differential'),
 })
+CLAIMED.update({
+    'C03': dict(cat='proof', design='DESIGN.md §7 C03',
+        text='Theorems: the six module-level wrappers forward pattern, namespaces, flags and custom to compile() and call the same-named '
+             'method (a finite statement about the wrapper bodies regenerated from soupsieve/__init__.py by T3); select() yields a '
+             'sub-sequence of the descendant walk, at most k items under limit k; the document object and non-elements never match. '
+             '~25 relational facts between all entry points checked on the implementation, every entry point through the extracted model.',
+        note='select = filter-by-match pointwise needs memo transparency (C04, partial); it is checked per case.',
+        technique='Coq proof over source-translated API table + matcher-model lemmas + relational differential'),
+    'C04': dict(cat='proof', design='DESIGN.md §7 C04',
+        text='Theorem: the :default memo table is transparent (any consistent memo gives the answer and exception of the empty memo and '
+             'stays consistent). History runs: every answer of a shared matcher is compared with one fresh matcher per element, with the '
+             'module-level function, and with a pristine structural copy asked in reverse order; the tree is compared before/after '
+             '(serialisation, node identities, attributes, parent links). The model uses a fresh memo per call and restores the '
+             'namespace/iframe swap by construction.',
+        note='history-freedom of the whole matcher (lang and indeterminate tables, lifting through match_selectors) is not proved yet (partial); non-mutation is monitored, not proved.',
+        technique='Coq proof of memo transparency (partial) + history differential + run-time mutation monitor'),
+    'C05': dict(cat='proof', design='DESIGN.md §7 C05',
+        text='Theorems for ARBITRARY structures A, B (any flags, any nested content), as equalities of the whole monadic computation: '
+             'list A++B = A or-else B; a non-empty negated list = negation of the positive list; adding an alternative is monotone; '
+             'sub-lists of a compound are a conjunction. Nine source-level laws evaluated on the implementation over the whole grammar, '
+             'namespaces and custom aliases on every document family; composed patterns also through the extracted model.',
+        note=':where/:matches = :is is an IR-equality fact about the parser, checked per case.',
+        technique='Coq proof of IR-level Boolean laws + law-based differential'),
+    'C08': dict(cat='proof', design='DESIGN.md §7 C08',
+        text='Every Python raising site of the matcher is explicit in the model (Raise TypeError/ValueError/AttributeError/...), so the '
+             'extracted model predicts the exception class for every case; theorems: TypeError for a non-Tag target, value '
+             'normalisation is total. Nasty attribute contents, odd attribute values, degenerate documents, every entry point; the '
+             'implementation must not raise and must agree with the model.',
+        note='the full totality theorem is false of the faithful model because of the recorded finding C18-week-year-range; partial.',
+        technique='Coq model with explicit exceptions + differential on exception class'),
+    'C17': dict(cat='proof', design='DESIGN.md §7 C17',
+        text='Partition laws are instances of the proved complement law (C05) and of the single range decision; HTML-only lists are '
+             'evaluated in a fixed environment (own document, html namespace) - proved. Ten laws and the definitions of :default, '
+             ':indeterminate, :placeholder-shown are evaluated on the implementation for every element of generated form documents; '
+             'all state pseudo-classes run through the extracted model.',
+        note='definitional theorems (default/indeterminate/dir) are not proved; decided per case (partial).',
+        technique='Coq corollaries of the Boolean laws + definitional oracle + differential'),
+})
 NOT_YET = {}
 props = [json.loads(l) for l in open(os.path.join(V, 'properties.jsonl'))]
 checks, na = [], []
